@@ -73,6 +73,8 @@ import Tie.Binders
 #print axioms Sourcer.C17_nested_failing_choices
 #print axioms Sourcer.C17_spilled_helper_same_outcome
 #print axioms Sourcer.C18_interleaving
+#print axioms Sourcer.C18_interleaving_any_number
+#print axioms Sourcer.C18_nested_call_is_invisible
 #print axioms Sourcer.C19_sugar
 #print axioms Sourcer.C19_repeat
 #print axioms Sourcer.C19_choice
